@@ -826,7 +826,58 @@ def check_sha_padding(ctx, prog):
         ctx.ok('C15.shapad', end['pq'], role, fwhere(end), '%d (length, split) histories: block sequence = message, 0x80, zeros, 64-bit big-endian bit length' % runs)
 
 
+def interp_decode_base64(ctx, prog):
+    """decodeBase64 decided by interpretation (scansim; result array, inverse table and the white-space helper interpreted from
+    the source): for payloads of 0..7 bytes the RFC 4648 text - plain, and with each of space, tab, CR, LF inserted at every
+    position (and CR LF line breaks) - must decode to the payload, with no access outside the text or the result."""
+    import scansim, base64
+    fs = [g for g in prog.fn('asl::decodeBase64', '(const char *,int)') if g.get('body')]
+    if not fs:
+        return
+    f = fs[0]
+    ctx.analysed(f)
+    role = 'decodeBase64:text with interleaved white space decodes to the payload'
+    bad = None
+    runs = 0
+    try:
+        for L in range(0, 8):
+            payload = bytes((37 * k + 11 * L + 200) & 255 for k in range(L))
+            enc = base64.b64encode(payload).decode()
+            variants = [enc]
+            for ws in ' \t\r\n':
+                for pos in range(0, len(enc) + 1):
+                    variants.append(enc[:pos] + ws + enc[pos:])
+            variants.append('\r\n'.join(enc[i:i + 4] for i in range(0, len(enc), 4)) + '\r\n')
+            for text in variants:
+                for nlen in (-1, len(text)):
+                    bufs = {'IN': [ord(c) for c in text] + [0]}
+                    r = scansim.Run(prog, f, bufs, ptr_params={f['params'][0]['id']: ('P', 'IN', 0)}, int_params={f['params'][1]['id']: nlen}, objects=True)
+                    runs += 1
+                    try:
+                        ret = r.run()
+                    except scansim.OOB as o:
+                        bad = 'decoding %r: %s' % (text, o)
+                        break
+                    if not (isinstance(ret, tuple) and ret[0] == 'P' and ret[1][0] == 'O'):
+                        raise scansim.Unsupported('result is not the local array')
+                    got = bytes(x & 255 for x in bufs[ret[1]] if isinstance(x, int))
+                    if got != payload:
+                        bad = 'the text %r decodes to %r, the payload was %r' % (text, got, payload)
+                        break
+                if bad:
+                    break
+            if bad:
+                break
+    except (scansim.Unsupported, TypeError, KeyError, IndexError) as u:
+        ctx.info['decodeBase64_interpretation'] = 'outside the interpreted fragment: %s' % u
+        return
+    ctx.evaluations += runs
+    ctx.check(bad is None, 'C15.decode', f['pq'], role, fwhere(f), 'interpreted on %d texts (payloads of 0..7 bytes; space, tab, CR, LF at every position; CRLF line breaks; with and without the length argument)' % runs,
+              'decodeBase64: %s' % bad)
+
+
 def check_decode(ctx, prog):
+    interp_decode_base64(ctx, prog)
     # Url::decode look-ahead (same obligation as C09.lookahead, decided by the same rule)
     import C09
     C09.url_decode_lookahead(ctx, prog, 'C15.decode')
